@@ -290,6 +290,26 @@ Fixpoint take_digits (s : list N) (acc : N) (n : nat) : N * nat * list N :=
   | [] => (acc, n, s)
   end.
 
+(* Which strings are certainly NOT entirely a numeral.  StringToNumber only ever steps over
+   digits, one leading sign, '.', 'e'/'E' with its sign, and -- after a 0x / 0X prefix -- hex
+   digits; a text holding any other unit is therefore never consumed to its end and counts as
+   text ("12abc", "3 apples", "7 ", " 7", "1.5x").  Shared by the model and the oracle. *)
+Definition numeral_char (c : N) : bool :=
+  is_digit c || (c =? dg_Negative) || (c =? dg_Positive) || (c =? dg_Dot) || (c =? dg_E) || (c =? dg_UE).
+Definition hex_char (c : N) : bool :=
+  is_digit c || ((dg_A <=? c) && (c <=? dg_F)) || ((dg_UA <=? c) && (c <=? dg_UF)).
+Definition strip_sign (s : list N) : list N :=
+  match s with c :: t => if (c =? dg_Negative) || (c =? dg_Positive) then t else s | [] => s end.
+Definition hex_prefixed (s : list N) : bool :=
+  match strip_sign s with
+  | c0 :: c1 :: _ => (c0 =? dg_Zero) && ((c1 =? dg_X) || (c1 =? dg_UX))
+  | _ => false
+  end.
+Definition plain_text (s : list N) : bool :=
+  if hex_prefixed s then
+    match strip_sign s with _ :: _ :: t => existsb (fun c => negb (hex_char c)) t | _ => false end
+  else existsb (fun c => negb (numeral_char c)) s.
+
 Inductive numres :=
 | NumNat (n : N) | NumInt (b : N) | NumReal (f : spec_float)
 | NotNum                   (* StringToNumber answers NotANumber, or does not consume the text *)
@@ -304,6 +324,7 @@ Definition real_of_dec (neg : bool) (m : N) (e10 : Z) : spec_float :=
   if neg then fneg x else x.
 
 Definition numeral (s : list N) : numres :=
+  if plain_text s then NotNum else
   match s with
   | [] => NotNum
   | c0 :: t0 =>
@@ -316,15 +337,20 @@ Definition numeral (s : list N) : numres :=
         (if neg || (c1 =? dg_Dot) || (c1 =? dg_Positive) then NumUnsupported else NotNum)
       else
         let '(ip, ni, r1) := take_digits body 0 0 in
-        (* leading zero only for "0" itself *)
-        if (c1 =? dg_Zero) && negb (Nat.eqb ni 1) then NumUnsupported
+        (* leading zero only for "0" itself: "00", "01" are not numbers ("Leading zero.") *)
+        if (c1 =? dg_Zero) && negb (Nat.eqb ni 1) then NotNum
         else if Nat.ltb 18 ni then NumUnsupported
         else match r1 with
         | [] => if neg then (if ip =? 0 then NumUnsupported else NumInt (neg64 ip)) else NumNat ip
         | c2 :: r2 =>
           let '(m, nf, r3) :=
             if c2 =? dg_Dot then (let '(m, n, r) := take_digits r2 ip 0 in (m, n, r)) else (ip, O, r1) in
-          if (c2 =? dg_Dot) && Nat.eqb nf 0 then NumUnsupported
+          if (c2 =? dg_Dot) && Nat.eqb nf 0 then
+            (* "12." is the real 12; "12.e1" is outside the sub-language; "1..2", "1.-" are text *)
+            match r3 with
+            | [] => if neg && (ip =? 0) then NumUnsupported else NumReal (real_of_dec neg ip 0)
+            | c3 :: _ => if (c3 =? dg_E) || (c3 =? dg_UE) then NumUnsupported else NotNum
+            end
           else if Nat.ltb 18 (ni + nf) then NumUnsupported
           else match r3 with
           | [] => NumReal (real_of_dec neg m (- Z.of_nat nf))
@@ -336,13 +362,14 @@ Definition numeral (s : list N) : numres :=
                                  | [] => (false, r4) end in
               let '(ex, ne, r6) := take_digits r5 0 0 in
               match r6 with
-              | [] => if Nat.eqb ne 0 || Nat.ltb 2 ne || (m =? 0) then NumUnsupported
+              | [] => if Nat.eqb ne 0 then NotNum          (* "5e", "5e+": no exponent digits *)
+                      else if Nat.ltb 2 ne || (m =? 0) then NumUnsupported
                       else let e10 := ((if eneg then - Z.of_N ex else Z.of_N ex) - Z.of_nat nf)%Z in
                            if (e10 <? -22)%Z || (22 <? e10)%Z then NumUnsupported
                            else NumReal (real_of_dec neg m e10)
-              | _ => NumUnsupported
+              | _ => NotNum                                (* "1e5e", "1e1.5": units left over *)
               end
-            else NumUnsupported
+            else NotNum                                    (* "1-2", "1.2.3": a sign or second dot is never consumed *)
           end
         end
     end
@@ -854,6 +881,7 @@ Definition q_of_sf (f : spec_float) : option (Z * positive) :=
 
 (* numeric value of a numeral text, exactly *)
 Definition snumeral (s : list N) : option souts :=      (* None = not a numeral *)
+  if plain_text s then None else
   match s with
   | [] => None
   | c0 :: t0 =>
@@ -866,6 +894,7 @@ Definition snumeral (s : list N) : option souts :=      (* None = not a numeral 
       else
         let '(ip, ni, r1) := take_digits body 0 0 in
         let sg (z : Z) := if neg then (- z)%Z else z in
+        if (c1 =? dg_Zero) && negb (Nat.eqb ni 1) then Some (SOutside 3) else
         match r1 with
         | [] => Some (mk_int (sg (Z.of_N ip)) true)
         | c2 :: r2 =>
@@ -881,6 +910,7 @@ Definition snumeral (s : list N) : option souts :=      (* None = not a numeral 
               let '(ex, ne, r6) := take_digits r5 0 0 in
               match r6 with
               | [] => let e10 := ((if eneg then - Z.of_N ex else Z.of_N ex) - Z.of_nat nf)%Z in
+                      if Nat.eqb ne 0 then Some (SOutside 3) else
                       if (0 <=? e10)%Z then Some (mk_real (sg (Z.of_N m) * 10 ^ e10) 1 true)
                       else match (10 ^ (- e10))%Z with Zpos d => Some (mk_real (sg (Z.of_N m)) d true) | _ => Some (SOutside 3) end
               | _ => Some (SOutside 3)
